@@ -378,10 +378,27 @@ def _is_acc_colours(case):
     ACCParallelTrans encloses a loop over colours, Dynamo0p3ColourTrans
     colours a loop that already is inside an OpenACC parallel region or
     under an '!$acc loop' directive (it only looks for OMPDirective
-    ancestors) and LFRicLoop.gen_code only rejects OpenMP regions."""
+    ancestors) and LFRicLoop.gen_code only rejects OpenMP regions.
+    '!$acc loop' directly on a loop over colours is only this root cause
+    if the loop was coloured *after* the directive had been added (a
+    directive accepted for an existing loop over colours is a different
+    defect)."""
     viol = case.get("viol", {})
-    return (viol.get("kind") == "colours_in_region" and
-            viol.get("directive") in ("acc parallel", "acc loop"))
+    if viol.get("kind") != "colours_in_region":
+        return False
+    if viol.get("directive") == "acc parallel":
+        return True
+    if viol.get("directive") != "acc loop":
+        return False
+    accepted = [step["t"] for step, status in
+                zip(case.get("steps", []), case.get("status", []))
+                if status == "ok"]
+    if "acc_loop" not in accepted:
+        return False
+    first = accepted.index("acc_loop")
+    last_acc = len(accepted) - 1 - accepted[::-1].index("acc_loop")
+    # every accepted '!$acc loop' is followed by an accepted colouring
+    return "colour" in accepted[last_acc + 1:] and first <= last_acc
 
 
 CLASSIFIERS = {
@@ -429,7 +446,7 @@ def make_machine(ctx, info_cache, lib):
             self.finished = False
 
         def teardown(self):
-            sess, self.sess = self.sess, None
+            sess = self.sess
             if sess is None:
                 return
             try:
@@ -437,6 +454,7 @@ def make_machine(ctx, info_cache, lib):
                     self._final(sess)
                 self._account(sess)
             finally:
+                self.sess = None
                 sess.close()
 
         # ---- bookkeeping ------------------------------------------
@@ -473,6 +491,7 @@ def make_machine(ctx, info_cache, lib):
                 if sig in self.reported:
                     continue
                 case = dict(self.case, steps=list(self.case["steps"]),
+                            status=[st_ for _, st_ in self.sess.log],
                             viol=viol, where=where)
                 bucket = bucket_of(viol)
                 strict = viol["kind"] == "uncoloured_parallel"
